@@ -14,19 +14,151 @@ open Sqroot.Model
 def DemandLe (c : MemoCfg) (m : Memo) (r : Int) : Prop :=
   m.maxLength = 0 ∨ (m.maxLength : Int) ≤ r + 1 + c.chunk
 
+namespace MD
+
+theorem demandLe_mono {c : MemoCfg} {m : Memo} {r r' : Int} (h : DemandLe c m r) (hr : r ≤ r') :
+    DemandLe c m r' := by
+  unfold DemandLe at *; omega
+
+theorem wait_maxLength (c : MemoCfg) (m : Memo) (i : Nat) :
+    (m.wait c i).1.maxLength = m.maxLength ∨ (m.wait c i).1.maxLength ≤ i + c.chunk := by
+  unfold Memo.wait
+  simp only
+  split
+  · right
+    simp only
+    have h1 : c.chunk * min (i / c.chunk + 1) c.maxChunks ≤ c.chunk * (i / c.chunk + 1) :=
+      Nat.mul_le_mul_left _ (Nat.min_le_left _ _)
+    have h2 : c.chunk * (i / c.chunk) ≤ i := Nat.mul_div_le i c.chunk
+    rw [Nat.mul_add, Nat.mul_one] at h1
+    omega
+  · left; rfl
+
+theorem wait_src (c : MemoCfg) (m : Memo) (i : Nat) : (m.wait c i).1.src = m.src := by
+  unfold Memo.wait
+  simp only
+  split <;> rfl
+
+theorem wait_demandLe (c : MemoCfg) (m : Memo) (i : Nat) (r : Int) (h : DemandLe c m r) :
+    DemandLe c (m.wait c i).1 (max r i) := by
+  have hw := wait_maxLength c m i
+  unfold DemandLe at *
+  omega
+
+/-- `wait i` when `i ≤ b` -/
+theorem wait_demandLe' (c : MemoCfg) (m : Memo) (i : Nat) (r b : Int) (h : DemandLe c m (max r b))
+    (hb : (i : Int) ≤ b) : DemandLe c (m.wait c i).1 (max r b) := by
+  have := wait_demandLe c m i _ h
+  exact demandLe_mono this (by omega)
+
+theorem at_demandLe (c : MemoCfg) (m : Memo) (p r : Int) (h : DemandLe c m r) :
+    DemandLe c (m.at c p).1 (max r p) := by
+  unfold Memo.at
+  split
+  · exact demandLe_mono h (by omega)
+  · have hw := wait_demandLe c m p.toNat r h
+    have : DemandLe c (m.wait c p.toNat).1 (max r p) := demandLe_mono hw (by omega)
+    simp only
+    split <;> exact this
+
+/-- bound expression of a traversal result -/
+def lastB (xs : List (Nat × Nat)) (b : Int) : Int :=
+  match xs.getLast? with
+  | some (q, _) => (q : Int) + 1
+  | none => b
+
+theorem scanLoop_demand (c : MemoCfg) (r limit : Int) :
+    ∀ (take : Nat) (m : Memo) (index snap : Nat) (ok : Bool) (acc : List (Nat × Nat)) (b : Int)
+      (m' : Memo) (xs : List (Nat × Nat)),
+      DemandLe c m (max r b) → b ≤ index →
+      Memo.scanLoop c take m index limit snap ok acc = (m', xs) →
+      (xs = acc.reverse ∧ m' = m) ∨
+        (∃ q d, xs.getLast? = some (q, d) ∧ DemandLe c m' (max r ((q : Int) + 1))) := by
+  intro take
+  induction take with
+  | zero =>
+    intro m index snap ok acc b m' xs _ _ hs
+    simp only [Memo.scanLoop, Prod.mk.injEq] at hs
+    exact Or.inl ⟨hs.2.symm, hs.1.symm⟩
+  | succ take ih =>
+    intro m index snap ok acc b m' xs hd hb hs
+    unfold Memo.scanLoop at hs
+    split at hs
+    · simp only [Prod.mk.injEq] at hs
+      exact Or.inl ⟨hs.2.symm, hs.1.symm⟩
+    · have hd1 : DemandLe c m (max r ((index : Int) + 1)) := demandLe_mono hd (by omega)
+      simp only at hs
+      split at hs
+      · simp only [Prod.mk.injEq] at hs
+        refine Or.inr ⟨index, m.src.digit index, ?_, ?_⟩
+        · rw [← hs.2]; simp
+        · rw [← hs.1]; exact hd1
+      · have key : ∀ (m2 : Memo) (snap2 : Nat) (ok2 : Bool),
+            DemandLe c m2 (max r ((index : Int) + 1)) →
+            Memo.scanLoop c take m2 (index + 1) limit snap2 ok2 ((index, m.src.digit index) :: acc) = (m', xs) →
+            ∃ q d, xs.getLast? = some (q, d) ∧ DemandLe c m' (max r ((q : Int) + 1)) := by
+          intro m2 snap2 ok2 hd2 hs2
+          rcases ih m2 (index + 1) snap2 ok2 _ ((index : Int) + 1) m' xs hd2 (by omega) hs2 with ⟨hx, hm⟩ | h
+          · refine ⟨index, m.src.digit index, ?_, ?_⟩
+            · rw [hx]; simp
+            · rw [hm]; exact hd2
+          · exact h
+        split at hs
+        · exact Or.inr (key _ _ _ (wait_demandLe' c m (index + 1) r _ hd1 (by omega)) hs)
+        · exact Or.inr (key _ _ _ hd1 hs)
+
+theorem scan_demandLe (c : MemoCfg) (m : Memo) (idx lim : Int) (take : Nat) (r : Int)
+    (h : DemandLe c m r) (m' : Memo) (xs : List (Nat × Nat))
+    (hs : m.scan c idx lim take = .ok (m', xs)) :
+    DemandLe c m' (max r (lastB xs idx)) ∧ (take = 0 → m' = m) := by
+  unfold Memo.scan at hs
+  split at hs
+  · cases hs
+  · rename_i hi
+    split at hs
+    · rename_i ht
+      simp only [Except.ok.injEq, Prod.mk.injEq] at hs
+      refine ⟨?_, fun _ => hs.1.symm⟩
+      rw [← hs.1, ← hs.2]
+      exact demandLe_mono h (by simp only [lastB, List.getLast?_nil]; omega)
+    · rename_i ht
+      simp only [Except.ok.injEq] at hs
+      refine ⟨?_, fun h0 => absurd h0 ht⟩
+      have hw : DemandLe c (m.wait c idx.toNat).1 (max r idx) :=
+        demandLe_mono (wait_demandLe c m idx.toNat r h) (by omega)
+      rcases scanLoop_demand c r lim take _ _ _ _ [] idx m' xs hw (by omega) hs with ⟨hx, hm⟩ | ⟨q, d, hq, hd⟩
+      · rw [hx, hm]; simpa [lastB] using hw
+      · simpa [lastB, hq] using hd
+
+end MD
+
 theorem consulted_le_demand (m : Memo) : m.consulted ≤ m.maxLength := by
-  sorry
+  unfold Memo.consulted
+  split
+  · exact Nat.min_le_left _ _
+  · exact Nat.le_refl _
 
 /-- `wait(i)` asks about position `i` -/
 theorem wait_demand (c : MemoCfg) (hc : 0 < c.chunk) (m : Memo) (i : Nat) (r : Int) (h : DemandLe c m r) :
-    DemandLe c (m.wait c i).1 (max r i) ∧ (m.wait c i).1.src = m.src := by
-  sorry
+    DemandLe c (m.wait c i).1 (max r i) ∧ (m.wait c i).1.src = m.src :=
+  have _ := hc
+  ⟨MD.wait_demandLe c m i r h, MD.wait_src c m i⟩
 
 /-- `At(p)` through a view with limit: asks about `min p limit` (nothing for p < 0 / nil) -/
 theorem at_demand (c : MemoCfg) (hc : 0 < c.chunk) (m : Memo) (sp : VSpec) (p : Int) (r : Int) (h : DemandLe c m r) :
     DemandLe c (specAt c m sp p).1
       (max r (match sp with | .limited l => min p l | _ => p)) := by
-  sorry
+  have _ := hc
+  cases sp with
+  | nil => exact MD.demandLe_mono h (by omega)
+  | memo => exact MD.at_demandLe c m p r h
+  | limited l =>
+    simp only [specAt]
+    split
+    · have := MD.at_demandLe c m l r h
+      exact MD.demandLe_mono this (by omega)
+    · have := MD.at_demandLe c m p r h
+      exact MD.demandLe_mono this (by omega)
 
 /-- a forward traversal through any view spec, consumer stopping after `take` items: the demand
 is bounded by the LAST DELIVERED position + 1 + one block; when nothing is delivered, by the
@@ -39,11 +171,37 @@ theorem scan_demand (c : MemoCfg) (hc : 0 < c.chunk) (m : Memo) (sp : VSpec) (in
         | some (q, _) => (q : Int) + 1
         | none => (match sp with | .limited l => min index l | _ => index))) ∧
     (take = 0 → m' = m) := by
-  sorry
+  have _ := hc
+  have _ := hidx
+  cases sp with
+  | nil =>
+    simp only [specScan, Except.ok.injEq, Prod.mk.injEq] at hs
+    obtain ⟨rfl, rfl⟩ := hs
+    refine ⟨?_, fun _ => rfl⟩
+    exact MD.demandLe_mono h (by simp only [List.getLast?_nil]; omega)
+  | memo => exact MD.scan_demandLe c m index maxInt take r h m' xs hs
+  | limited l => exact MD.scan_demandLe c m (min index l) (min maxInt l) take r h m' xs hs
 
 /-- a live pull iterator: one call asks about at most the position after the one it delivers -/
 theorem pull3_demand (c : MemoCfg) (hc : 0 < c.chunk) (m : Memo) (it : PullIt) (r : Int) (h : DemandLe c m r) :
     DemandLe c (m.pull3 c it).1 (max r ((it.index : Int) + 1)) := by
-  sorry
+  have _ := hc
+  have h0 : DemandLe c m (max r ((it.index : Int) + 1)) := MD.demandLe_mono h (by omega)
+  have h1 : DemandLe c (m.wait c it.index).1 (max r ((it.index : Int) + 1)) :=
+    MD.wait_demandLe' c m it.index r _ h0 (by omega)
+  unfold Memo.pull3
+  by_cases hi : it.initialized
+  · simp only [hi, Bool.not_true, Bool.false_eq_true, if_false]
+    split
+    · exact h0
+    · split
+      · exact MD.wait_demandLe' c m (it.index + 1) r _ h0 (by omega)
+      · exact h0
+  · simp only [hi, Bool.not_false, if_true]
+    split
+    · exact h1
+    · split
+      · exact MD.wait_demandLe' c _ (it.index + 1) r _ h1 (by omega)
+      · exact h1
 
 end Sqroot.Proofs
